@@ -18,8 +18,10 @@ def jobs(rng, thorough):
 
 
 def run(ctx: core.Ctx):
-    ctx.lean_stage(extra_props=("C06b", "Tie", "L4Live"))
-    b2check.run_b2(ctx, jobs, ["C14"], label="api initialisation with faults")
+    ctx.lean_stage(extra_props=("C06b", "C07a", "Tie", "L4Live"))
+    js = []
+    results = b2check.run_b2(ctx, lambda rng, th: js.extend(jobs(rng, th)) or js, ["C14", "APIrun"], label="api initialisation with faults")
+    b2check.api_fold(ctx, results, js)
     ctx.info["rule"] = ("small devices (<= 3 optional subunits) x fault kind (open fails / silent after k replies / EOF after k bytes incl. k = 0,1 / write error after k lines) x k sampled over the whole start-up dialogue; each under a seeded schedule, some with extra line-level preemptions; a case = one schedule; non-trivial = distinct (spec, seed)")
     return ctx.finish()
 
